@@ -9,6 +9,14 @@
 (* of GoingUp / Up / ComponentRegistered run small PROGRAMS re-entrantly     *)
 (* (take / call deferrals, register, call_when_ready, raise).               *)
 (*                                                                          *)
+(* HOW the components a waiter names are handed over is a dimension of a    *)
+(* declaration (f): a collection made for this call ("fresh"), a one-shot   *)
+(* iterator ("once": generator, map, ...), or a mutable collection k the    *)
+(* CALLER owns, keeps and may change or re-use afterwards (variable coll,   *)
+(* action Mutate).  The waiter names what the collection holds WHEN IT IS   *)
+(* DECLARED: no form may make a difference, and nothing the caller does to  *)
+(* its collection later changes a declared dependency set (DepsFixed).      *)
+(*                                                                          *)
 (* One action per PUBLIC call made from outside core (register,             *)
 (* call_when_ready, listen_to_dependencies, goUp, a deferral being obtained *)
 (* or called, quit).  What happens INSIDE such a call - which ready waiter  *)
@@ -34,6 +42,9 @@ CONSTANTS Comps,        \* component names
           Script,       \* [Waiters -> program run by the callback / _all_dependencies_met]
           Handles,      \* [Waiters -> SUBSET Comps]: c such that the sink has _handle_<c>_Ev
           DepSets,      \* dependency sets a declaration may name (explicit ones for sinks)
+          Forms,        \* how a declaration hands over these names: "fresh" (a collection made
+                        \* for this call), "once" (a one-shot iterator)
+          Colls,        \* mutable collections the caller owns and may also declare through
           HandlerSeqs,  \* explored GoingUp handler lists: sequences of programs
           UpProgs,      \* explored programs of the Up handler
           CRProg,       \* [on, p]: program p run by a ComponentRegistered handler when
@@ -79,6 +90,9 @@ Owners == GNames \cup LNames \cup {"up", "cr"} \cup Waiters
 VARIABLES comps,    \* registered component names
           wst,      \* [Waiters -> {"new","pending","fired"}]
           wdeps,    \* [Waiters -> SUBSET Comps] dependencies of a pending waiter ({} otherwise)
+          wform,    \* [Waiters -> form]: how a pending waiter's dependencies were handed over
+                    \* ("fresh", "once", or the caller's collection; "-" when not pending)
+          coll,     \* [Colls -> SUBSET Comps]: what each caller-owned collection holds now
           wired,    \* {<<sink, c>>}: an event raised by component c reaches the sink's handler
           attrs,    \* {<<sink, c>>}: sink._c_ has been set
           crdone,   \* the ComponentRegistered handler's program has run
@@ -88,7 +102,8 @@ VARIABLES comps,    \* registered component names
           upprog,   \* program of the Up handler
           last,     \* observation of the last action
           hist      \* all observations (export only; hidden by VIEW)
-rvars == <<comps, wst, wdeps, wired, attrs, crdone>>
+nocoll == <<comps, wst, wdeps, wform, wired, attrs, crdone>>
+rvars == <<nocoll, coll>>
 lvars == <<life, defs, handed, upprog>>
 vars  == <<rvars, lvars, last, hist>>
 view  == <<rvars, lvars, last>>
@@ -105,6 +120,8 @@ NoObs == [a |-> "Init", args |-> [x |-> 0], exp |-> [x |-> 0]]
 
 Init == /\ comps = {} /\ wst = [w \in Waiters |-> "new"]
         /\ wdeps = [w \in Waiters |-> {}]
+        /\ wform = [w \in Waiters |-> "-"]
+        /\ coll = [k \in Colls |-> {}]
         /\ wired = {} /\ attrs = {} /\ crdone = FALSE
         /\ life = <<>> /\ defs = {} /\ handed = {} /\ upprog = <<>>
         /\ last = NoObs /\ hist = <<>>
@@ -114,10 +131,11 @@ Log(a, args, exp) ==
   /\ hist' = Append(hist, [a |-> a, args |-> args, exp |-> exp])
 
 ----------------------------------------------------------------------------
-(* The state inside a public call: x = [c, st, dp, wr, at, crd, crp, lf, df,  *)
-(* hd, lg]; crp = the ComponentRegistered program is due, lg = callback log. *)
+(* The state inside a public call: x = [c, st, dp, fm, wr, at, crd, crp, lf,  *)
+(* df, hd, lg]; crp = the ComponentRegistered program is due, lg = callback  *)
+(* log.                                                                      *)
 
-Base == [c |-> comps, st |-> wst, dp |-> wdeps, wr |-> wired, at |-> attrs,
+Base == [c |-> comps, st |-> wst, dp |-> wdeps, fm |-> wform, wr |-> wired, at |-> attrs,
          crd |-> crdone, crp |-> FALSE, lf |-> life, df |-> defs, hd |-> handed,
          lg |-> <<>>]
 
@@ -133,7 +151,8 @@ GIdx(o) == CHOOSE i \in 1..3 : GName(i) = o
 ApplyOp(x, op, owner) ==
   CASE op.k = "reg" -> RegIn(x, op.c)
     [] op.k = "cwr" -> IF x.st[op.w] = "new"
-                       THEN [x EXCEPT !.st[op.w] = "pending", !.dp[op.w] = op.d]
+                       THEN [x EXCEPT !.st[op.w] = "pending", !.dp[op.w] = op.d,
+                                      !.fm[op.w] = "fresh"]
                        ELSE x
     [] op.k = "acq" -> [x EXCEPT !.hd = @ \cup {owner},
                                  !.df = IF InSeq("Up", x.lf) THEN @ ELSE @ \cup {owner}]
@@ -153,7 +172,7 @@ Ready(x) == {w \in Waiters : x.st[w] = "pending" /\ x.dp[w] \subseteq x.c}
 
 Fire(x, w) ==
   LET sk == Kind[w] = "sink"
-      x1 == [x EXCEPT !.st[w] = "fired", !.dp[w] = {},
+      x1 == [x EXCEPT !.st[w] = "fired", !.dp[w] = {}, !.fm[w] = "-",
                       !.lg = Append(@, Fire_(w, x.c)),
                       !.wr = IF sk THEN @ \cup {<<w, c>> : c \in (Handles[w] \cap Sources)} ELSE @,
                       !.at = IF sk THEN @ \cup {<<w, c>> : c \in x.dp[w]} ELSE @]
@@ -193,7 +212,7 @@ Commit(a, args, outs) ==
   LET fin == CHOOSE o \in outs : TRUE IN
   /\ Assert(\A o \in outs : NoLog(o) = NoLog(fin), "confluence")
   /\ Assert(~fin.crp, "ComponentRegistered program left over")
-  /\ comps' = fin.c /\ wst' = fin.st /\ wdeps' = fin.dp
+  /\ comps' = fin.c /\ wst' = fin.st /\ wdeps' = fin.dp /\ wform' = fin.fm
   /\ wired' = fin.wr /\ attrs' = fin.at /\ crdone' = fin.crd
   /\ life' = fin.lf /\ defs' = fin.df /\ handed' = fin.hd
   /\ Log(a, args, [logs |-> {o.lg : o \in outs}, comps |-> fin.c,
@@ -204,19 +223,34 @@ Commit(a, args, outs) ==
 
 Register(c) ==
   /\ Commit("Register", [c |-> c], Settle(RegIn(Base, c)))
-  /\ UNCHANGED upprog
+  /\ UNCHANGED <<upprog, coll>>
 
-CallWhenReady(w, d) ==
-  /\ Kind[w] = "cb" /\ wst[w] = "new"
-  /\ Commit("CallWhenReady", [w |-> w, deps |-> d],
-            Settle([Base EXCEPT !.st[w] = "pending", !.dp[w] = d]))
-  /\ UNCHANGED upprog
+\* the names d are handed over in form f: through a collection of the caller's
+\* they are what that collection holds at this moment
+FormOK(f, d) == f \in Forms \/ (f \in Colls /\ d = coll[f])
+
+CallWhenReady(w, d, f) ==
+  /\ Kind[w] = "cb" /\ wst[w] = "new" /\ FormOK(f, d)
+  /\ Commit("CallWhenReady", [w |-> w, deps |-> d, f |-> f],
+            Settle([Base EXCEPT !.st[w] = "pending", !.dp[w] = d, !.fm[w] = f]))
+  /\ UNCHANGED <<upprog, coll>>
 
 \* dependencies = components named by the sink's handlers + explicit ones
-ListenTo(s, e) ==
-  /\ Kind[s] = "sink" /\ wst[s] = "new"
-  /\ Commit("ListenTo", [w |-> s, deps |-> e],
-            Settle([Base EXCEPT !.st[s] = "pending", !.dp[s] = Handles[s] \cup e]))
+ListenTo(s, e, f) ==
+  /\ Kind[s] = "sink" /\ wst[s] = "new" /\ FormOK(f, e)
+  /\ Commit("ListenTo", [w |-> s, deps |-> e, f |-> f],
+            Settle([Base EXCEPT !.st[s] = "pending", !.dp[s] = Handles[s] \cup e,
+                                !.fm[s] = f]))
+  /\ UNCHANGED <<upprog, coll>>
+
+\* the caller changes a collection of its own (o = "add" / "del" of name c) -
+\* possibly one it has declared waiters through.  No call into core is made:
+\* nothing fires, and no declared dependency set changes.
+Mutate(k, o, c) ==
+  /\ k \in Colls /\ c \in Comps
+  /\ \/ o = "add" /\ c \notin coll[k] /\ coll' = [coll EXCEPT ![k] = @ \cup {c}]
+     \/ o = "del" /\ c \in coll[k] /\ coll' = [coll EXCEPT ![k] = @ \ {c}]
+  /\ Commit("Mutate", [f |-> k, o |-> o, c |-> c], {Base})
   /\ UNCHANGED upprog
 
 ----------------------------------------------------------------------------
@@ -227,7 +261,7 @@ ListenTo(s, e) ==
 \* outstanding
 GoUp(hs, up) ==
   /\ life = <<>>
-  /\ upprog' = up
+  /\ upprog' = up /\ UNCHANGED coll
   /\ LET X1 == SeqHandlers({[Base EXCEPT !.lf = <<"GoingUp">>]}, hs, 1)
          X2 == {[x EXCEPT !.lg = Append(@, Life_("GoingUp", x.c))] : x \in X1}
          one == CHOOSE x \in X2 : TRUE
@@ -239,14 +273,14 @@ GoUp(hs, up) ==
 NLate == Cardinality(handed \cap LNames)
 GetDeferral ==
   /\ InSeq("GoingUp", life) /\ NLate < DefCap /\ NLate < 4
-  /\ UNCHANGED upprog
+  /\ UNCHANGED <<upprog, coll>>
   /\ Commit("GetDeferral", [x |-> 0], {ApplyOp(Base, OAcq, LName(NLate + 1))})
 
 \* the deferral kept by `o` is called (again, if it is no longer outstanding).
 \* Before goUp() this only means that goUp() need not wait for it.
 Release(o) ==
   /\ o \in handed
-  /\ UNCHANGED upprog
+  /\ UNCHANGED <<upprog, coll>>
   /\ IF o \notin defs
      THEN Commit("Release", [o |-> o], {Base})
      ELSE LET x0 == [Base EXCEPT !.df = @ \ {o}] IN
@@ -263,7 +297,7 @@ Quit(re) ==
   /\ QuitOn
   /\ InSeq("GoingUp", life)
   /\ (QuitDeferred \/ defs = {} \/ InSeq("GoingDown", life))
-  /\ UNCHANGED upprog
+  /\ UNCHANGED <<upprog, coll>>
   /\ IF InSeq("GoingDown", life)
      THEN Commit("Quit", [re |-> re], {Base})
      ELSE Commit("Quit", [re |-> re],
@@ -271,8 +305,11 @@ Quit(re) ==
                                !.lg = <<Life_("GoingDown", comps), Life_("Down", comps)>>]})
 
 Next == \/ \E c \in Comps : Register(c)
-        \/ \E w \in Waiters, d \in DepSets : CallWhenReady(w, d)
-        \/ \E s \in Waiters, e \in DepSets : ListenTo(s, e)
+        \/ \E w \in Waiters, d \in DepSets, f \in Forms : CallWhenReady(w, d, f)
+        \/ \E w \in Waiters, k \in Colls : CallWhenReady(w, coll[k], k)
+        \/ \E s \in Waiters, e \in DepSets, f \in Forms : ListenTo(s, e, f)
+        \/ \E s \in Waiters, k \in Colls : ListenTo(s, coll[k], k)
+        \/ \E k \in Colls, o \in {"add", "del"}, c \in Comps : Mutate(k, o, c)
         \/ \E hs \in HandlerSeqs, up \in UpProgs : GoUp(hs, up)
         \/ GetDeferral
         \/ \E o \in Owners : Release(o)
@@ -289,6 +326,9 @@ LifeEvents == {"GoingUp", "Up", "GoingDown", "Down"}
 TypeOK == /\ comps \subseteq Comps
           /\ wst \in [Waiters -> States]
           /\ wdeps \in [Waiters -> SUBSET Comps]
+          /\ wform \in [Waiters -> {"-", "fresh", "once"} \cup Colls]
+          /\ \A w \in Waiters : (wform[w] = "-") = (wst[w] # "pending")
+          /\ coll \in [Colls -> SUBSET Comps]
           /\ wired \subseteq (Waiters \X Comps) /\ attrs \subseteq (Waiters \X Comps)
           /\ crdone \in BOOLEAN
           /\ defs \subseteq handed /\ handed \subseteq Owners
@@ -350,6 +390,15 @@ NeverEarly ==
         /\ (i > 1 => lg[i - 1].s \subseteq lg[i].s)
         /\ (lg[i].k = "fire" => \E d \in DeclDeps(lg[i].n) : d \subseteq lg[i].s)]_vars
 
+\* the components a waiter names are those handed over when it was declared:
+\* while it is pending neither they nor the form change, whatever the caller
+\* does with its collection afterwards; only the caller changes a collection
+DepsFixed ==
+  [][/\ \A w \in Waiters : (wst[w] = "pending" /\ wst'[w] = "pending")
+                              => (wdeps'[w] = wdeps[w] /\ wform'[w] = wform[w])
+     /\ \A k \in Colls : coll'[k] # coll[k] => (last'.a = "Mutate" /\ last'.args.f = k)
+     /\ last'.a = "Mutate" => (nocoll' = nocoll /\ lvars' = lvars /\ Logs = {<<>>})]_vars
+
 \* the lifecycle events a call raises are exactly those appended to life:
 \* GoingUp once, Up exactly once, whatever the handlers do re-entrantly
 LifeLogged ==
@@ -370,7 +419,7 @@ CROnce ==
 
 \* ---- export for the replay harness
 Catalog == [comps |-> Comps, sources |-> Sources, kind |-> Kind, script |-> Script,
-            handles |-> Handles, cr |-> CRProg]
+            handles |-> Handles, cr |-> CRProg, forms |-> Forms, colls |-> Colls]
 Bound   == Len(hist) <= D
 Export  == (Len(hist) = D) => PrintT(<<"H", ToJson(hist)>>)
 ExportT == PrintT(<<"T", ToJson(hist')>>)
